@@ -149,7 +149,9 @@ func c17Exec(in []string) []string {
 		src.cerr = c17Err(n)
 	}
 	limit := len(data) + len(sched) + 2
-	req := &http.Request{Method: http.MethodPost, Header: http.Header{}, ContentLength: int64(proto.UnN(in[7]))}
+	// the answer does not depend on the method (a GET may carry a body): vary it
+	method := []string{http.MethodPost, http.MethodGet, http.MethodPut, http.MethodHead, "get", http.MethodDelete, http.MethodPatch}[(len(data)+len(sched))%7]
+	req := &http.Request{Method: method, Header: http.Header{}, ContentLength: int64(proto.UnN(in[7]))}
 	if in[8] != "~" {
 		req.Header["Content-Length"] = []string{proto.UnB(in[8])}
 	}
